@@ -13,6 +13,8 @@ pub mod c17;
 pub mod c18;
 pub mod c20;
 pub mod common;
+pub mod libleg;
+pub mod routing;
 pub mod smoke;
 pub mod txw;
 
@@ -23,7 +25,11 @@ pub fn run(what: &str, tier: &str, _rest: &[String]) -> i32 {
         "C02" => c02::run(tier),
         "C03" => c03::run(tier),
         "C04" => c04::run(tier),
+        "C05" => routing::run_c05(tier),
+        "C06" => routing::run_c06(tier),
         "C07" => c07::run(tier),
+        "C13" => routing::run_c13(tier),
+        "C19" => routing::run_c19(tier),
         "C09" => c09::run(tier),
         "C10" => c10::run(tier),
         "C12" => c12::run(tier),
